@@ -132,6 +132,46 @@ pub fn dbcount(args: &[String]) {
     }
 }
 
+/// `dbforeign <index dir>`: replace the directory by a healthy index of ANOTHER LAYOUT (the
+/// `name` field analysed by tantivy's default word tokenizer), as another version of the tool
+/// might have written it.
+pub fn dbforeign(args: &[String]) {
+    let run = || -> anyhow::Result<u64> {
+        use tantivy::schema::{Schema, STORED, TEXT};
+        let _ = std::fs::remove_dir_all(&args[0]);
+        std::fs::create_dir_all(&args[0])?;
+        let mut b = Schema::builder();
+        let data = b.add_bytes_field("data", STORED);
+        let name = b.add_text_field("name", TEXT | STORED);
+        let index = tantivy::Index::create_in_dir(&args[0], b.build())?;
+        let mut w = index.writer_with_num_threads(1, 50_000_000)?;
+        for (tokens, value, desc) in [
+            (vec!["mass", "vulcan"], "42/1", "Mass of Vulcan (FOREIGN INDEX)"),
+            (vec!["population", "finland"], "1/1", "Population of Finland (FOREIGN INDEX)"),
+        ] {
+            let c = anything::Constant {
+                source: None,
+                tokens: tokens.iter().map(|t| t.to_string().into_boxed_str()).collect(),
+                description: desc.to_string().into_boxed_str(),
+                value: parse_rat(value),
+                unit: parse_unit_canon("-"),
+            };
+            let mut doc = tantivy::Document::default();
+            doc.add_bytes(data, serde_cbor::to_vec(&c)?);
+            for t in &c.tokens {
+                doc.add_text(name, t.as_ref());
+            }
+            w.add_document(doc)?;
+        }
+        w.commit()?;
+        Ok(index.reader()?.searcher().num_docs())
+    };
+    match run() {
+        Ok(n) => println!("FOREIGN {}", n),
+        Err(e) => println!("FOREIGNERR {}", e.to_string().replace('\n', " ")),
+    }
+}
+
 /// `dbstale <index dir>`: replace the committed documents of an on-disk index by an earlier
 /// "generation" of the data: a withdrawn constant and a revised one.
 pub fn dbstale(args: &[String]) {
